@@ -28,6 +28,7 @@ import (
 //   hybi.go Write          `case length < 65536:` -> `case length <= 65536:`
 //   hybi.go NewFrameReader `b &= 0x7f` (first one, length octet) -> `b &= 0x3f`
 //   hybi.go HandleFrame    server side `== nil` -> `!= nil`
+//   websocket.go Receive   oversized frame: `ws.frameReader = frame` dropped (leftover not drained)
 
 func init() {
 	vfRegister("VerifC59_codec", VerifC59_codec)
@@ -97,11 +98,7 @@ func c59payload(n int) []byte {
 var c59lengths = []int{0, 1, 4, 125, 126, 127, 65535, 65536}
 
 func VerifC59_codec() {
-	nl := len(c59lengths)
-	if vfTier() == 0 {
-		nl-- // quick: up to 65535
-	}
-	n := c59lengths[vfChoice("length", nl)]
+	n := c59lengths[vfChoice("length", len(c59lengths))]
 	msg := c59payload(n)
 	var key []byte
 	maskKind := vfChoice("mask kind", 3) // none / 4 symbolic bytes / concrete key
@@ -164,6 +161,8 @@ func VerifC59_codec() {
 		vfReach("16-bit length lower boundary")
 	case 65535:
 		vfReach("16-bit length upper boundary")
+	case 65536:
+		vfReach("64-bit length lower boundary")
 	}
 	vfReach("end")
 }
@@ -357,8 +356,9 @@ func VerifC59_receive() {
 	toServer := vfBool("client to server")
 	// sender side
 	snd, sndrwc := c59conn(!toServer, nil)
-	n1 := vfLen("n1", 0, 3)
-	n2 := vfLen("n2", 0, 3)
+	maxn := 3 + 2*vfTier()
+	n1 := vfLen("n1", 0, maxn)
+	n2 := vfLen("n2", 0, maxn)
 	m1 := vfBytes("m1", n1)
 	m2 := vfBytes("m2", n2)
 	text1, text2 := vfBool("m1 is text"), vfBool("m2 is text")
@@ -385,7 +385,7 @@ func VerifC59_receive() {
 		vfAssert(wire[1]&0x80 == 0, "server frames are not masked")
 	}
 	rcv, _ := c59conn(toServer, wire)
-	max := vfLen("MaxPayloadBytes", 0, 2)
+	max := vfLen("MaxPayloadBytes", 0, 2+2*vfTier())
 	rcv.MaxPayloadBytes = max
 	recv := func(text bool, want []byte) {
 		if text {
